@@ -268,6 +268,15 @@ def run(repo, rep, tier):
             e = e.func.value
         t = unparse(e)
         return t in ('out', 'self.out', 'self.__outputbuffer', 'self.__out')
+    def _flush_key(f, n):
+        # the finding is identified by the class the flush lives in and the text it writes (a constant message), not by which method of the class holds
+        # the statement: the same known flush moved into a private helper of the class is still that flush
+        cls_ = getattr(f, '_parent', None)
+        owner = '%s:%s' % (f._module.name, cls_.name) if isinstance(cls_, ast.ClassDef) else func_id(f)
+        msgs = [c.value for c in ast.walk(enclosing(n)) if isinstance(c, ast.Constant) and isinstance(c.value, str) and len(c.value) > 8]
+        if isinstance(cls_, ast.ClassDef) and msgs:
+            return owner, 'out-of-band flush of %r' % msgs[0]
+        return func_id(f), stmt_text(enclosing(n))
     nflush = 0
     for f in cg.reachable([tw]):
         fid = func_id(f)
@@ -289,7 +298,7 @@ def run(repo, rep, tier):
             nflush += 1
             rep.check('blocks', 'no out-of-band flush on the scan path: %s' % fid, False, n,
                       '%s flushes the target\'s output buffer to stdout itself (%s): in a multi-target run the text is written by the worker thread, outside the block main() prints for this target' % (fid, unparse(n)[:80]),
-                      func=fid, stmt=stmt_text(enclosing(n)))
+                      func=_flush_key(f, n)[0], stmt=_flush_key(f, n)[1])
     rep.samples.append({'rule': 'blocks', 'out_of_band_flush_sites': nflush})
 
     # ---- rule 5: JSON element --------------------------------------------------------------------------------------------------------
